@@ -210,6 +210,19 @@ def run(ctx):
                 base = X.render(rng, t["tree"], p[:i], "rel") if p[:i] else ""
                 miss_cases.append({"tree": t["tree"], "mode": t["mode"], "xp": base + "[%d]" % bad})
     nt = lambda c: len(c.get("pos", ())) > 1
+    # exhaustive small scope: every dict-rooted tree with <= n nodes below the root, every position, canonical spelling
+    nmax = 4 if ctx.tier == "thorough" else 3
+    small = X.small_trees(nmax)
+    ex_sp, ex_enum = [], []
+    for t in small:
+        for mode in (("n0", "wrap") if ctx.tier == "thorough" else ("n0",)):
+            ex_enum.append({"tree": t, "mode": mode})
+            for p, _ in X.positions(t):
+                if p:
+                    ex_sp.append({"tree": t, "mode": mode, "pos": p, "xp": "/" + X.render_rel(t, p)})
+    ctx.evaluate("enum/exhaustive", ex_enum, check_enum)
+    ctx.evaluate("spelling/exhaustive", ex_sp, check_spelling)
+    ctx.extra["exhaustive_subspace"] = "all dict-rooted trees with <= %d nodes below the root over keys {a,b}, leaves {'v',0,None}, {} and []: %d trees, every position" % (nmax, len(small))
     ctx.evaluate("spelling", sp_cases, check_spelling, in_known=in_known_attr, nontrivial=nt)
     ctx.evaluate("miss", miss_cases, check_miss, in_known=in_known_attr)
 
